@@ -78,6 +78,59 @@ theorem glue_calls_names : Gen.SolverGlue.callFacts.map (·.1) =
   decide
 
 
+
+/-- **End-to-end statement about the traced `diffusion`** (no hand-written model in between): if the vector `u` handed back by the sparse
+    solver solves the system the code handed to it, and the stiffness matrix annihilates constants from the left (zero column sums, C01),
+    then the total heat `Σ_i Σ_j B_ij u_j` equals the number of seed vertices (2) — whatever the time `m·ℓ²`. -/
+theorem diffusion_traced_conservation
+    (a00 a01 a02 a10 a11 a12 a20 a21 a22 b00 b01 b02 b10 b11 b12 b20 b21 b22 m ell u0 u1 u2 : ℝ)
+    (hA : a00 + a10 + a20 = 0 ∧ a01 + a11 + a21 = 0 ∧ a02 + a12 + a22 = 0)
+    (h0 : Gen.SolverGlue.heatMat_0 a00 a01 a02 a10 a11 a12 a20 a21 a22 b00 b01 b02 b10 b11 b12 b20 b21 b22 m ell * u0
+        + Gen.SolverGlue.heatMat_1 a00 a01 a02 a10 a11 a12 a20 a21 a22 b00 b01 b02 b10 b11 b12 b20 b21 b22 m ell * u1
+        + Gen.SolverGlue.heatMat_2 a00 a01 a02 a10 a11 a12 a20 a21 a22 b00 b01 b02 b10 b11 b12 b20 b21 b22 m ell * u2
+        = Gen.SolverGlue.heatRhs_0 a00 a01 a02 a10 a11 a12 a20 a21 a22 b00 b01 b02 b10 b11 b12 b20 b21 b22 m ell)
+    (h1 : Gen.SolverGlue.heatMat_3 a00 a01 a02 a10 a11 a12 a20 a21 a22 b00 b01 b02 b10 b11 b12 b20 b21 b22 m ell * u0
+        + Gen.SolverGlue.heatMat_4 a00 a01 a02 a10 a11 a12 a20 a21 a22 b00 b01 b02 b10 b11 b12 b20 b21 b22 m ell * u1
+        + Gen.SolverGlue.heatMat_5 a00 a01 a02 a10 a11 a12 a20 a21 a22 b00 b01 b02 b10 b11 b12 b20 b21 b22 m ell * u2
+        = Gen.SolverGlue.heatRhs_1 a00 a01 a02 a10 a11 a12 a20 a21 a22 b00 b01 b02 b10 b11 b12 b20 b21 b22 m ell)
+    (h2 : Gen.SolverGlue.heatMat_6 a00 a01 a02 a10 a11 a12 a20 a21 a22 b00 b01 b02 b10 b11 b12 b20 b21 b22 m ell * u0
+        + Gen.SolverGlue.heatMat_7 a00 a01 a02 a10 a11 a12 a20 a21 a22 b00 b01 b02 b10 b11 b12 b20 b21 b22 m ell * u1
+        + Gen.SolverGlue.heatMat_8 a00 a01 a02 a10 a11 a12 a20 a21 a22 b00 b01 b02 b10 b11 b12 b20 b21 b22 m ell * u2
+        = Gen.SolverGlue.heatRhs_2 a00 a01 a02 a10 a11 a12 a20 a21 a22 b00 b01 b02 b10 b11 b12 b20 b21 b22 m ell) :
+    (b00 + b10 + b20) * u0 + (b01 + b11 + b21) * u1 + (b02 + b12 + b22) * u2 = 2 := by
+  obtain ⟨c0, c1, c2⟩ := hA
+  simp only [Gen.SolverGlue.heatMat_0, Gen.SolverGlue.heatMat_1, Gen.SolverGlue.heatMat_2, Gen.SolverGlue.heatMat_3, Gen.SolverGlue.heatMat_4,
+    Gen.SolverGlue.heatMat_5, Gen.SolverGlue.heatMat_6, Gen.SolverGlue.heatMat_7, Gen.SolverGlue.heatMat_8, Gen.SolverGlue.heatRhs_0,
+    Gen.SolverGlue.heatRhs_1, Gen.SolverGlue.heatRhs_2] at h0 h1 h2
+  have e0 : a20 = -(a00 + a10) := by linarith
+  have e1 : a21 = -(a01 + a11) := by linarith
+  have e2 : a22 = -(a02 + a12) := by linarith
+  subst e0 e1 e2
+  nlinarith [h0, h1, h2]
+
+
+
+/-- **End-to-end statement about the traced `eigs`**: for the matrix the code factorises, every generalised eigenpair `A x = λ B x`
+    satisfies `(factorised) x = (λ − σ) B x` with the recorded `σ = −1/100`; since `λ ≥ 0 > σ` (C01/C02) the factor `λ − σ` is positive, so
+    ARPACK's largest `1/(λ − σ)` are the smallest `λ` (Props/C03 `shift_order`). -/
+theorem eigs_traced_shift
+    (a00 a01 a02 a10 a11 a12 a20 a21 a22 b00 b01 b02 b10 b11 b12 b20 b21 b22 m ell lam x0 x1 x2 : ℝ)
+    (h0 : a00 * x0 + a01 * x1 + a02 * x2 = lam * (b00 * x0 + b01 * x1 + b02 * x2))
+    (h1 : a10 * x0 + a11 * x1 + a12 * x2 = lam * (b10 * x0 + b11 * x1 + b12 * x2))
+    (h2 : a20 * x0 + a21 * x1 + a22 * x2 = lam * (b20 * x0 + b21 * x1 + b22 * x2)) :
+    let S := fun k => [Gen.SolverGlue.shifted_0, Gen.SolverGlue.shifted_1, Gen.SolverGlue.shifted_2, Gen.SolverGlue.shifted_3, Gen.SolverGlue.shifted_4,
+      Gen.SolverGlue.shifted_5, Gen.SolverGlue.shifted_6, Gen.SolverGlue.shifted_7, Gen.SolverGlue.shifted_8].getD k (fun _ _ _ _ _ _ _ _ _ _ _ _ _ _ _ _ _ _ _ _ => 0)
+        a00 a01 a02 a10 a11 a12 a20 a21 a22 b00 b01 b02 b10 b11 b12 b20 b21 b22 m ell
+    let sg := Gen.SolverGlue.sigma a00 a01 a02 a10 a11 a12 a20 a21 a22 b00 b01 b02 b10 b11 b12 b20 b21 b22 m ell
+    S 0 * x0 + S 1 * x1 + S 2 * x2 = (lam - sg) * (b00 * x0 + b01 * x1 + b02 * x2) ∧
+    S 3 * x0 + S 4 * x1 + S 5 * x2 = (lam - sg) * (b10 * x0 + b11 * x1 + b12 * x2) ∧
+    S 6 * x0 + S 7 * x1 + S 8 * x2 = (lam - sg) * (b20 * x0 + b21 * x1 + b22 * x2) := by
+  simp only [List.getD_cons_zero, List.getD_cons_succ, Gen.SolverGlue.shifted_0, Gen.SolverGlue.shifted_1, Gen.SolverGlue.shifted_2,
+    Gen.SolverGlue.shifted_3, Gen.SolverGlue.shifted_4, Gen.SolverGlue.shifted_5, Gen.SolverGlue.shifted_6, Gen.SolverGlue.shifted_7,
+    Gen.SolverGlue.shifted_8, Gen.SolverGlue.sigma]
+  refine ⟨?_, ?_, ?_⟩ <;> linarith
+
+
 /-! ### census of data-dependent decisions: the traced code took exactly the branches the model knows about -/
 theorem census_SolverGlue_pcCount : Gen.SolverGlue.pcCount = 0 := rfl
 
